@@ -444,6 +444,11 @@ def gen_cases(tier, seed):
          ("RNTO", "/a/stolen", None, "path")],
         [A, ("RNFR", "/a", None, "path"), ("RNTO", "/a/sub/inside", None, "path"), ("MLST", "/a/f1", None, "path")],
         [A, E, ("REST", "9", None, "rest:ascii"), ("STOR", "/a/brand-new", "before", "xfer")],
+        [A, E, ("REST", "4", None, "rest:ascii"), ("LIST", "/a", "before", "xfer"), ("RETR", "/top.txt", "before", "xfer")],
+        [A, E, ("REST", "4", None, "rest:ascii"), ("MLSD", "/a", "after", "xfer"), ("RETR", "/top.txt", "after", "xfer")],
+        [A, E, ("REST", "2", None, "rest:ascii"), ("LIST", "/", "before", "xfer"), ("STOR", "/top.txt", "before", "xfer"),
+         ("RETR", "/top.txt", "before", "xfer")],
+        [A, E, ("REST", "3", None, "rest:ascii"), ("MLSD", "/nope", "before", "xfer"), ("APPE", "/top.txt", "before", "xfer")],
         [A, ("REST", "²", None, "rest:nonascii-digit"), ("PWD", "", None, "plain")],
         [A, ("REST", "①", None, "rest:nonascii-digit"), ("PWD", "", None, "plain")],
         [A, ("REST", "7" * 5000, None, "rest:astronomic"), ("PWD", "", None, "plain")],
